@@ -1,7 +1,8 @@
 #!/bin/bash
 # usage (through `vp run --with-repo -- tools/reseed_part.sh K N`): runs the kept seeded changes number K, K+N, K+2N, ... against the
 # quick check of their property, in this snapshot of /verif and against the snapshot of /repo in $VP_RUN_REPO (the harness's
-# path dependencies are redirected to it), so that /repo itself stays untouched.  One line per seed.
+# path dependencies are redirected to it), so that /repo itself stays untouched.  One line per seed.  RESEED_ONLY="C01 C14" restricts
+# the run to the seeds of those properties.
 K=${1:-0}; N=${2:-1}
 cd "$(dirname "$0")/.."
 R=${VP_RUN_REPO:?needs --with-repo}
@@ -11,14 +12,15 @@ sed -i "s#path = \"/repo/#path = \"$R/#" harness/Cargo.toml
 i=0
 for d in /verif/seeded/*/; do
   if [ $((i % N)) -eq $K ]; then
+    i=$((i+1))
     id=$(basename $d); P=${id%%-*}
-    ( cd $R && git apply $d/patch.diff ) || { echo "$id PATCH-DOES-NOT-APPLY"; i=$((i+1)); continue; }
+    if [ -n "$RESEED_ONLY" ] && ! echo " $RESEED_ONLY " | grep -q " $P "; then continue; fi
+    ( cd $R && git apply $d/patch.diff ) || { echo "$id PATCH-DOES-NOT-APPLY"; continue; }
     out=$(./check $P --tier quick 2>&1 | grep -E "^VIOLATION|\[check\] C")
     ( cd $R && git checkout -q -- . )
     if echo "$out" | grep -q "^VIOLATION"; then
       if echo "$out" | grep "^VIOLATION" | grep -q "no-failing-input-found"; then echo "$id DETECTED (no failing input)"; else echo "$id DETECTED"; fi
     else echo "$id MISSED: $(echo "$out" | tail -1 | cut -c1-160)"; fi
-  fi
-  i=$((i+1))
+  else i=$((i+1)); fi
 done
 echo PART-DONE $K
